@@ -35,14 +35,14 @@ func main() {
 	r := gen.New(gen.Seed())
 	if os.Getenv("VERIF_MODE") == "burst" {
 		// concurrent histories: bursts of overlapping calls separated by quiescent points
-		n := gen.Scale(60, 1500)
+		n := gen.Scale(40, 1200)
 		for i := 0; i < n; i++ {
 			burstHistory(h, r, i)
 		}
 		h.EndHistory()
 		return
 	}
-	n := gen.Scale(250, 5000)
+	n := gen.Scale(200, 4000)
 	for i := 0; i < n; i++ {
 		history(h, r, i)
 	}
